@@ -268,3 +268,85 @@ func runDemux(sc *streamScenario, rec *recorder) {
 	dmx := newDemuxer(cr, sc.Run)
 	drainData(dmx, len(bs.pkts)+len(bs.units)*4+10, func() int { return cr.pulled }, rec.ev)
 }
+
+// ---------- C06: clean / faulted pairs ----------
+
+// runPair: pkts carry channel marks (f = "dup": the extra copy; f = "drop": present in the clean stream only).
+// Both streams go through a real Demuxer; deliveries are tagged with the run and with the unit they equal.
+func runPair(sc *streamScenario, rec *recorder) {
+	bs := buildStream(sc.Units, sc.Pkts, sc.PMTPIDs, sc.Seed, sc.Complete)
+	rec.ev(M{"ev": "reset", "t": sc.SID, "kind": "pair", "npkts": len(bs.pkts)})
+	unitEvents(bs, rec)
+	var clean, fault []byte
+	prevUnit := map[int]int{} // pid -> last unit id seen before the current one
+	curUnit := map[int]int{}
+	inDomain := true
+	for i := range bs.pkts {
+		p := &bs.pkts[i]
+		b := bs.bytes[i*188 : (i+1)*188]
+		if p.K == "" && p.F != "dup" && curUnit[p.PID] != p.U {
+			prevUnit[p.PID] = curUnit[p.PID]
+			curUnit[p.PID] = p.U
+		}
+		if p.F != "dup" {
+			clean = append(clean, b...)
+		}
+		if p.F != "drop" {
+			fault = append(fault, b...)
+		}
+		if p.F == "dup" || p.F == "drop" {
+			rec.ev(M{"ev": "fault", "f": p.F, "pid": p.PID, "u": p.U, "prevu": prevUnit[p.PID], "pusi": p.PUSI, "at": i})
+		}
+		if p.F == "drop" {
+			later := false
+			for j := i + 1; j < len(bs.pkts); j++ {
+				q := &bs.pkts[j]
+				if q.PID == p.PID && q.K == "" && q.F != "drop" {
+					later = true
+					break
+				}
+			}
+			if !later {
+				inDomain = false
+			}
+		}
+	}
+	if !inDomain {
+		rec.ev(M{"ev": "outofdomain"})
+		return
+	}
+	// the k-th clean delivery on a PID is the k-th item of that PID's units (C02); faulted deliveries are
+	// matched to clean ones by content digest
+	itemUnit := map[int][]int{}
+	for _, u := range bs.units {
+		for range u.items {
+			itemUnit[u.spec.PID] = append(itemUnit[u.spec.PID], u.spec.ID)
+		}
+	}
+	seen := map[int]int{}
+	unitOfCDG := map[string]int{}
+	one := func(run string, stream []byte) {
+		dmx := newDemuxer(bytes.NewReader(stream), sc.Run)
+		drainData(dmx, len(stream)/188+len(bs.units)*4+10, func() int { return 0 }, func(e M) {
+			e["run"] = run
+			if e["ev"] == "deliver" {
+				pid := e["pid"].(int)
+				key := fmt.Sprintf("%d/%s", pid, e["cdg"])
+				if run == "clean" {
+					u := 0
+					if k := seen[pid]; k < len(itemUnit[pid]) {
+						u = itemUnit[pid][k]
+					}
+					seen[pid]++
+					unitOfCDG[key] = u
+					e["u"] = u
+				} else {
+					e["u"] = unitOfCDG[key]
+				}
+			}
+			rec.ev(e)
+		})
+	}
+	one("clean", clean)
+	one("fault", fault)
+}
